@@ -109,7 +109,7 @@ def streams(seed, tier):
     for n in (200, 1000, 5000, 20000, 60000):            # far beyond the grid: a few draws each, validated by valid_gen, not executed
         for lst in ([], [S("INTEGER.+")]):
             cases.append(case(n % 2, 2, 3, [state(bind=BINDS[1], cfg=cfg(pnew=0.001)), lst, n, -1, []], tape(rng)))
-    for nm_ in ("EXEC.CMD", "NOOP", "CODE.NOOP", "EXEC.Y", "NAME.RAND", "INTEGER.RAND"):      # a one-element instruction list: every instruction leaf is that name
+    for nm_ in ("EXEC.CMD", "NOOP", "CODE.NOOP", "EXEC.Y", "NAME.RAND", "INTEGER.RAND", "ROBOT.TURN LEFT", " LEAD", "", "x"):      # a one-element instruction list: every instruction leaf is that name
         for n in (1, 2, 7, 30):
             cases.append(case(n % 2, 2, n_draws // 2, [state(bind=BINDS[0], cfg=cfg(pnew=0.5)), [S(nm_)], n, -1, []], tape(rng)))
             cases.append(case(n % 2, 3, n_draws // 2, [state(bind=BINDS[0], cfg=cfg(pnew=0.5)), [S(nm_)], n + 1, -1, []], tape(rng)))
@@ -155,7 +155,7 @@ def streams(seed, tier):
                     continue      # both huge: an allocation-sized request, C15's business
                 nb, p = rng.choice([0, 1, 5, 11, 15]), rng.choice(PROBS)
                 # unbound names wait on the NAME stack: a name leaf is a BOUND name (or a new one), never one of these
-                st = state(int=[n, 42], code=[], name=rng.choice([[], ["PENDING", "U1"], ["U2"]]), bind=BINDS[nb], cfg=cfg(pnew=p, maxpts=mp))
+                st = state(int=[n, 42], code=[], name=rng.choice([[], ["PENDING", "U1"], ["U2"], ["X", "U3"], ["Y"], ["P1", "P2"]]), bind=BINDS[nb], cfg=cfg(pnew=p, maxpts=mp))
                 cases.append(case(rng.randrange(2), 11, n_draws, [st, lst, S("CODE.RAND"), STEPS, [S(d) for d in EXEC_DENY], 0], tape(rng)))
     cases.append(case(0, 11, 3, [state(), names, S("CODE.RAND"), STEPS, [], 0], tape(rng)))
     out.append(Stream("CODE.RAND", "rand", "rand.check", cases,
@@ -179,47 +179,7 @@ def extra(ctx):
           % (total, NEED_FLOAT_LEAVES, MISS, RARE, (1.0 - 1.0 / RARE) ** total))
 
 
-    new_names(ctx)
-
-
-def new_names(ctx):
-    """the oracle assumption on draw_name (Model/RandomGen.v): names::Generator yields lower-case words joined by '-',
-    which the parser always reads back as the identifier itself.  Checked on N draws; when the alphabet changed (the
-    correspondence to the oracle description is broken) a long search looks for a drawn name that is NOT read back as a name."""
-    n = {"quick": 400000, "thorough": 4000000, "search": 1000000}[ctx.tier]
-    line = "rand.newnames (1 () %d)" % n
-    r = vcheck.run_impl([line], timeout=600)[0]
-    ctx.evaluations += 1
-    stat = ctx.stats.setdefault("new-name-alphabet", {"cases": 0, "draws": 0, "outside_alphabet": 0, "not_read_back_as_name": 0,
-                                "note": "CodeGenerator::new_random_name(): every drawn name is lower-case words joined by '-' (the oracle assumption of draw_name) and is read back by the parser as the identifier itself"})
-    stat["cases"] += 1; stat["draws"] += n
-    try:
-        v = sx_parse(r)[1]
-        outside, first_out, notname, first_bad = v[0], "".join(chr(c) for c in v[1]), v[2], "".join(chr(c) for c in v[3])
-    except Exception:
-        ctx.violation("drawing new names failed", {"property": "C12", "kind": "runtime", "suite": "rand.newnames", "case": line.split(" ", 1)[1], "impl_output": r[:200]})
-        return
-    stat["outside_alphabet"] += outside; stat["not_read_back_as_name"] += notname
-    if outside and not notname:
-        # search: up to 3e7 further draws for a name that lexes as something else
-        for _ in range(6):
-            r2 = vcheck.run_impl(["rand.newnames (1 () 5000000)"], timeout=900)[0]
-            stat["draws"] += 5000000
-            try:
-                v2 = sx_parse(r2)[1]
-            except Exception:
-                break
-            if v2[2]:
-                notname, first_bad = v2[2], "".join(chr(c) for c in v2[3])
-                break
-    if notname:
-        ctx.violation("a freshly drawn name is not a name for the parser: `%s` (the generated program does not print/parse back, C11)" % first_bad,
-                      {"property": "C12", "kind": "predicate-fails", "suite": "rand.newnames", "case": "(1 () %d)" % n, "drawn_name": first_bad, "example_outside_alphabet": first_out,
-                       "how_to_replay": "parse the drawn name with PushParser::parse_program: it is not an Identifier; new names now leave the alphabet [a-z]+(-[a-z]+)+"})
-    elif outside:
-        ctx.violation("new names left the alphabet the oracle model assumes (e.g. `%s`); no drawn name that fails to parse back was found" % first_out,
-                      {"property": "C12", "kind": "correspondence-broken", "suite": "rand.newnames", "case": "(1 () %d)" % n, "example_outside_alphabet": first_out,
-                       "no_longer_checks": "oracle assumption of draw_name (Model/RandomGen.v): names::Generator output is lower-case words joined by '-'"}, nofail=True)
+    vcheck.new_names(ctx, "C12")
 
 
 TECHNIQUE = "Coq proof over an explicit randomness oracle (tape): strong induction on the requested size, soundness AND completeness of the decidable characterisation valid_gen; membership correspondence (the real generators run N times per grid point, valid_gen evaluated on every produced program, RNG-independent part diffed), every produced program printed/parsed/executed on the real interpreter"
